@@ -14,6 +14,8 @@ import gen  # noqa: E402
 import tvrun  # noqa: E402
 from svm import I, InternalFault, Unsupported, float_bits  # noqa: E402
 from vcommon import VERIF, tier  # noqa: E402
+import re  # noqa: E402
+from kcheck import k_check  # noqa: E402
 
 FLOAT_LITS = ["0.0", "1.5", "2.0", "0.5", "3.0", "100.0"]
 FLOAT_OPS = [("+", "add"), ("-", "sub"), ("*", "mul"), ("/", "div"), ("<", "lt"), ("<=", "le"), (">", "gt"), (">=", "ge"), ("==", "eq")]
@@ -118,6 +120,7 @@ def float_family(outcome, stats):
 
 def run(outcome, _harnesses):
     t = tier()
+    harness_map = _harnesses
     core = gen.core_templates()
     templates = [x for x in core if "C05" in x["tags"]]
     if t == "thorough":
@@ -141,5 +144,19 @@ def run(outcome, _harnesses):
                      "and compound-assignment operands; thorough: the whole C02 family); float literal family: 9 operators x %d literals + -0.0 + "
                      "constant folding of 1.0 / 0.0, non-NaN x. Outside: K-level validation of optimize() itself (out of CBMC's reach, measured), "
                      "float ^ and intrinsics." % (len(templates), len(FLOAT_LITS)))
+    # literal operands at the VM level: the immediate arms of the REAL step() against the same oracle as the variable arms (engine K);
+    # engine S models the instruction set, so a change inside vm.rs is only visible here
+    quick_imm = r"c1[56]_(addimm_tt|subimm_tt|mulimm_tt|divimm_tt|modimm_tt|powimm_tt|eqimm_tt|ltimm_tt|leimm_tt|gtimm_tt|geimm_tt)$"
+    items = [{"module": m, "name": n, "quick": bool(re.match(quick_imm, n))} for n, m in sorted(harness_map.items()) if re.match(r"c1[56]_\w*imm", n)]
+    frag, _ = k_check("C05", outcome, items, quick_timeout=600, thorough_timeout=1200, jobs=12)
+    cov["immediate_arms_kani"] = {k: v for k, v in frag.items() if k != "samples"}
+    cov["evaluations"] += frag["evaluations"]
+    cov["distinct_nontrivial"] += frag["distinct_nontrivial"]
+    cov["queries"] += frag["vccs_generated"]
+    cov["solver_s"] = round(cov["solver_s"] + frag["solver_s"], 2)
+    cov["samples"] = cov["samples"][:60] + frag["samples"][:12]
+    cov["functions_encoded"].append("vm::VmGreenThread::step: every *Imm arm of the integer and float instructions (Kani, same oracles as the variable arms in C15 / C16)")
+    cov["bounds"] += (" VM level: each immediate arm of the real step() for all 2^64 operand values and a symbolic constant table (integers: i128 oracle / contract stubs; "
+                      "floats: all bit patterns against the total-order reference); quick = one register mode per arm, thorough = all modes.")
     return "translation_validation", cov, ["R (refsem.py) is the reference semantics", "the S instruction model (validated against the real VM in ./check C02)",
                                            "z3's IEEE-754 theory for non-NaN operands"]
